@@ -118,6 +118,15 @@ pub(crate) fn remove_or_compress_too_old_logfiles_impl(
     files.sort_unstable_by_key(|path| file_spec.sort_key(path));
     files.reverse();
 
+    // a compressed file whose original still exists stems from an interrupted compression:
+    // it is incomplete and must not count (nor survive) in place of the original
+    let (leftovers, files): (Vec<PathBuf>, Vec<PathBuf>) = files.iter().cloned().partition(|path| {
+        path.extension().is_some_and(|ext| ext == "gz") && files.contains(&path.with_extension(""))
+    });
+    for leftover in leftovers {
+        std::fs::remove_file(leftover).ok();
+    }
+
     for (index, file) in files.into_iter().enumerate() {
         #[cfg(feature = "verif_hooks")]
         crate::verif_hooks::point("cleanup.item", Some(&file)).ok();
